@@ -16,12 +16,12 @@ typedef struct std_unique_ptr_L_Obj_Pool_Deleter_R PP_t;
 struct pp_model { struct Obj *p; struct Pool_Deleter d; };       /* model layout inside the 16 opaque bytes; only the stubs below look inside */
 #define UP(u) (*(struct Obj **)(u))
 #define PP(u) ((struct pp_model *)(u))
-#define L38 Pool_pop_lambda_object_pool_hpp_38_9_op_call
-#define L41 Pool_pop_lambda_object_pool_hpp_41_9_op_call
-#define L49 Pool_pop_lambda_object_pool_hpp_49_9_op_call
-#define L61 Pool_try_pop_lambda_object_pool_hpp_61_7_op_call
-#define L76 Pool_push_lambda_object_pool_hpp_76_9_op_call
-#define L79 Pool_push_lambda_object_pool_hpp_79_9_op_call
+#define L38 Pool_pop_lambda_object_pool_pop_1_op_call
+#define L41 Pool_pop_lambda_object_pool_pop_2_op_call
+#define L49 Pool_pop_lambda_object_pool_pop_3_op_call
+#define L61 Pool_try_pop_lambda_object_pool_try_pop_1_op_call
+#define L76 Pool_push_lambda_object_pool_push_1_op_call
+#define L79 Pool_push_lambda_object_pool_push_2_op_call
 
 struct Obj *g_obj;                  /* the watched object (arbitrary, non-null) */
 int g_owners; _Bool g_in_queue, g_dead, g_born;
@@ -75,19 +75,19 @@ void MoveOnlyFunction_L_void_ObjRef_R_op_call(struct MoveOnlyFunction_L_void_Obj
 /* ---- the queue */
 size_t ObjQ_size(struct ObjQ *q) { return g_size; }
 #define IT(b, e) struct ObjQ_Iterator b, e; b._slot = g_slot; e._slot = g_slot + 1
-void ObjQ_pop__1_1_0_lambda_object_pool_hpp_49_9_void(struct ObjQ *q, struct lambda_object_pool_hpp_49_9 *cb) {
+void ObjQ_pop__1_1_0_lambda_object_pool_pop_3_void(struct ObjQ *q, struct lambda_object_pool_pop_3 *cb) {
   UP(&g_slot[0].value) = from_queue(); own(UP(&g_slot[0].value));
   L49(cb, &g_slot[0].value);
   __CPROVER_assert(UP(&g_slot[0].value) == 0, "K5 C17.pool pop takes the object out of its queue slot");
 }
-_Bool ObjQ_try_pop__1_0_lambda_object_pool_hpp_61_7_void(struct ObjQ *q, struct lambda_object_pool_hpp_61_7 *cb) {
+_Bool ObjQ_try_pop__1_0_lambda_object_pool_try_pop_1_void(struct ObjQ *q, struct lambda_object_pool_try_pop_1 *cb) {
   if (nondet_bool()) return 0;
   UP(&g_slot[0].value) = from_queue(); own(UP(&g_slot[0].value));
   L61(cb, &g_slot[0].value);
   __CPROVER_assert(UP(&g_slot[0].value) == 0, "K5 C17.pool try_pop takes the object out of its queue slot");
   return 1;
 }
-void ObjQ_pop_n__lambda_object_pool_hpp_38_9_lambda_object_pool_hpp_41_9(struct ObjQ *q, struct lambda_object_pool_hpp_38_9 *cb, struct lambda_object_pool_hpp_41_9 *rcb, unsigned long num) {
+void ObjQ_pop_n__lambda_object_pool_pop_1_lambda_object_pool_pop_2(struct ObjQ *q, struct lambda_object_pool_pop_1 *cb, struct lambda_object_pool_pop_2 *rcb, unsigned long num) {
   __CPROVER_assert(num == 1, "C17 model: the pool pops one object at a time");
   while (nondet_bool())       /* queue empty: the reverse callback must put a created object into the slot it is given */
     __CPROVER_assigns(g_slot[0].value, g_owners, g_in_queue, g_born, g_created)
@@ -104,7 +104,7 @@ void ObjQ_pop_n__lambda_object_pool_hpp_38_9_lambda_object_pool_hpp_41_9(struct 
     __CPROVER_assert(UP(&g_slot[0].value) == 0, "K5 C17.pool pop takes the object out of its queue slot"); }
 }
 void ObjQ_push__1_0_1_UPtr_0(struct ObjQ *q, UPtr_t *v) { struct Obj *p = UP(v); __CPROVER_assert(p != 0, "K5 C17.pool no null object is queued"); UP(v) = 0; into_queue(p); }
-void ObjQ_push_n__lambda_object_pool_hpp_76_9_lambda_object_pool_hpp_79_9(struct ObjQ *q, struct lambda_object_pool_hpp_76_9 *cb, struct lambda_object_pool_hpp_79_9 *rcb, unsigned long num) {
+void ObjQ_push_n__lambda_object_pool_push_1_lambda_object_pool_push_2(struct ObjQ *q, struct lambda_object_pool_push_1 *cb, struct lambda_object_pool_push_2 *rcb, unsigned long num) {
   __CPROVER_assert(num == 1, "C17 model: the pool pushes one object at a time");
   while (nondet_bool())       /* queue full: the reverse callback must empty the slot it is given (that object leaves the pool) */
     __CPROVER_assigns(g_slot[0].value, g_owners, g_in_queue, g_dead, g_deleted_any)
